@@ -1,26 +1,31 @@
 """Translator for C16: the tables of the external-project mechanism ->
 lean/FordModel/Generated/C16.lean.
 
-  ATTRIBUTES, ENTITIES, METADATA_NAME      ford/external_project.py   (ast)
-  _project_list / self.obj of each External* class named in ENTITIES   ford/sourceform.py (ast)
-  class-level `proctype = "..."` of the non-External entity classes    ford/sourceform.py (ast)
-  LINK_TYPES (in source order)             ford/fortran_project.py    (ast)
-  the exception classes in the `except (...)` clause of load_external_modules, evaluated
-  against a fixed list of ways in which fetching modules.json can fail (issubclass)
-  the control flow of load_external_modules around that clause: the `try` is a statement of the loop
-  over the external projects, the conversion (`dict2obj`) is a later statement of the same loop body,
-  and - per way of failing - how the handler that catches it ends: it falls through to the conversion
-  with the description reset to an empty container, or `continue`, `break`, `return`, `raise`
+Since round 5 everything is read from the *running* implementation (imported from the repository under test), not
+from the spelling of its source - a table written as a literal, a concatenation, `dict([...])` or through named
+constants gives the same generated file:
 
-  ford/graphs.py, BaseNode.__init__ (round 4): the External* classes that are replaced by `str(obj)` before a graph
-  node is made, and the test that decides whether the node's URL is used as it is or prefixed with
-  `graph_data.parent_dir` - written in the little language of lean/FordModel/ExternalNodeCond.lean
+  ATTRIBUTES, ENTITIES, METADATA_NAME      ford.external_project   (the objects themselves)
+  `_project_list` (class attribute) and `obj` (of a freshly made object) of each class in ENTITIES
+  class-level `proctype` strings of the non-External entity classes of ford.sourceform, in definition order
+  LINK_TYPES (in insertion order)          ford.fortran_project
+  load_external_modules: *run* on a real (parsed) project that lists an unusable external project before a usable
+  one and between two usable ones - per way of failing (FETCH_ERRORS: raised by the replaced network fetch, and
+  staged on disk for local paths; both must agree): the failure ends the run (`uncaught`), the projects listed
+  after it are loaded (`fallthrough`) or are not (`return`)
+  graphs.BaseNode (round 4 mechanism): which External* classes become strings (their node is identified by the bare
+  name), and the test that decides between "URL as it is" and "`parent_dir` + URL": observed on stub objects
+  (External classes, own entities, strings x local paths, remote URLs, other URL shapes) and written as the first
+  NodeCond term (lean/FordModel/ExternalNodeCond.lean) of a fixed list that agrees with every observation; when no
+  term of the list does, the source of the `if` in BaseNode.__init__ is translated (ast) and must agree with the
+  observations
 
-Raises when a construct is not found (counts as 'tie broken')."""
+Raises when something is not found or not explained (counts as 'tie broken')."""
 from __future__ import annotations
 
 import ast
 import json
+import os
 import urllib.error
 from pathlib import Path
 
@@ -53,175 +58,333 @@ def _assign(tree, name):
     raise LookupError(f"assignment to {name} not found")
 
 
+def _modules(repo: Path):
+    """the implementation under test, imported (the tables and functions are read from the running code, not
+    from its spelling)"""
+    if Path(repo).resolve() != Path(common.REPO).resolve():
+        raise LookupError(f"translate/c16 reads the imported implementation ({common.REPO}), not {repo}")
+    common.import_ford()
+    import ford.external_project as xp
+    import ford.sourceform as sf
+    import ford.fortran_project as fp
+    import ford.graphs as gr
+    return xp, sf, fp, gr
+
+
+def _make(cls, *args):
+    """an object of an External* class: `cls(name, url)` or, for the classes without a URL, `cls(name)`"""
+    try:
+        return cls(*args)
+    except TypeError:
+        return cls(args[0])
+
+
 def extract(repo: Path) -> dict:
-    xp = ast.parse((repo / "ford" / "external_project.py").read_text())
-    sf = ast.parse((repo / "ford" / "sourceform.py").read_text())
-    fp = ast.parse((repo / "ford" / "fortran_project.py").read_text())
+    xp, sf, fp, gr = _modules(repo)
     out = {}
-    attrs = ast.literal_eval(_assign(xp, "ATTRIBUTES"))
-    if not (isinstance(attrs, list) and attrs and all(isinstance(a, str) for a in attrs)):
-        raise LookupError("external_project.ATTRIBUTES is not a list of strings")
+    # ---- the tables, as the running code holds them (however the source spells them: literal, concatenation,
+    #      dict(...), constants)
+    attrs = list(getattr(xp, "ATTRIBUTES", None) or [])
+    if not (attrs and all(isinstance(a, str) for a in attrs)):
+        raise LookupError("external_project.ATTRIBUTES is not a non-empty sequence of strings")
     out["attributes"] = attrs
-    ent = _assign(xp, "ENTITIES")
-    if not isinstance(ent, ast.Dict):
-        raise LookupError("external_project.ENTITIES is not a dict literal")
-    classes = {n.name: n for n in sf.body if isinstance(n, ast.ClassDef)}
+    ent = getattr(xp, "ENTITIES", None)
+    if not (isinstance(ent, dict) and ent):
+        raise LookupError("external_project.ENTITIES is not a non-empty dict")
     entities = []
-    for k, v in zip(ent.keys, ent.values):
-        if not (isinstance(k, ast.Constant) and isinstance(k.value, str) and isinstance(v, ast.Name)):
+    for k, cls in ent.items():
+        if not (isinstance(k, str) and isinstance(cls, type)):
             raise LookupError("external_project.ENTITIES: unexpected entry")
-        cls = classes.get(v.id)
-        if cls is None:
-            raise LookupError(f"class {v.id} not found in sourceform.py")
-        plist = None
-        objname = None
-        for n in cls.body:
-            if isinstance(n, ast.Assign) and isinstance(n.targets[0], ast.Name) and n.targets[0].id == "_project_list":
-                plist = n.value.value
-            if isinstance(n, ast.FunctionDef) and n.name == "__init__":
-                for s in ast.walk(n):
-                    if isinstance(s, ast.Assign) and isinstance(s.targets[0], ast.Attribute) \
-                            and s.targets[0].attr == "obj" and isinstance(s.value, ast.Constant):
-                        objname = s.value.value
-        if plist is None or objname is None:
-            raise LookupError(f"{v.id}: _project_list / self.obj not found")
-        entities.append((k.value, plist, objname, v.id))
-    out["entities"] = entities
-    out["metadataName"] = ast.literal_eval(_assign(xp, "METADATA_NAME"))
-    # proctype values of the entity classes the exporter can meet
-    pts = []
-    for name, cls in classes.items():
-        if name.startswith("External"):
-            continue
-        for n in cls.body:
-            if isinstance(n, ast.Assign) and isinstance(n.targets[0], ast.Name) and n.targets[0].id == "proctype" \
-                    and isinstance(n.value, ast.Constant):
-                pts.append((name, n.value.value))
-    if not pts:
-        raise LookupError("no class-level proctype assignments found in sourceform.py")
-    out["proctypes"] = pts
-    lt = _assign(fp, "LINK_TYPES")
-    if not isinstance(lt, ast.Dict):
-        raise LookupError("fortran_project.LINK_TYPES is not a dict literal")
-    out["linkTypes"] = [(k.value, v.value) for k, v in zip(lt.keys, lt.values)]
-    # except clause of load_external_modules
-    fn = next((n for n in xp.body if isinstance(n, ast.FunctionDef) and n.name == "load_external_modules"), None)
-    if fn is None:
-        raise LookupError("load_external_modules not found")
-    handlers = [h for t in ast.walk(fn) if isinstance(t, ast.Try) for h in t.handlers]
-    if not handlers:
-        raise LookupError("load_external_modules has no try/except")
-    import builtins
-    ns = dict(vars(builtins))
-    ns.update(URLError=urllib.error.URLError, HTTPError=urllib.error.HTTPError, json=json)
-    caught_classes = []
-    for h in handlers:
-        if h.type is None:
-            caught_classes.append(BaseException)
-            continue
-        src = ast.unparse(h.type)
+        plist = getattr(cls, "_project_list", None)
         try:
-            val = eval(src, ns)  # noqa: S307 - names of exception classes only
+            objname = getattr(_make(cls, "probe", "u"), "obj", None)     # what `__init__` sets
         except Exception as e:
-            raise LookupError(f"cannot resolve exception classes {src!r}: {e}")
-        caught_classes += list(val) if isinstance(val, tuple) else [val]
-    out["caughtSource"] = [c.__name__ for c in caught_classes]
-    out["fetchErrors"] = [(n, any(issubclass(c, k) for k in caught_classes)) for n, c in FETCH_ERRORS.items()]
-    out["handlerExits"], out["loopShape"] = _loop_shape(fn, ns)
-    gr = ast.parse((repo / "ford" / "graphs.py").read_text())
-    out["nodeStringified"], out["nodeVerbatim"], out["nodeVerbatimSource"] = _node_url(gr)
+            raise LookupError(f"{cls.__name__}: cannot make an object ({type(e).__name__}: {e})")
+        if not (isinstance(plist, str) and isinstance(objname, str)):
+            raise LookupError(f"{cls.__name__}: _project_list / self.obj not found")
+        entities.append((k, plist, objname, cls.__name__))
+    out["entities"] = entities
+    if not isinstance(getattr(xp, "METADATA_NAME", None), str):
+        raise LookupError("external_project.METADATA_NAME is not a string")
+    out["metadataName"] = xp.METADATA_NAME
+    # proctype values of the entity classes the exporter can meet (class attributes, in definition order)
+    pts = [(name, vars(cls)["proctype"]) for name, cls in vars(sf).items()
+           if isinstance(cls, type) and cls.__module__ == sf.__name__ and not name.startswith("External")
+           and isinstance(vars(cls).get("proctype"), str)]
+    if not pts:
+        raise LookupError("no class-level proctype attributes found in sourceform.py")
+    out["proctypes"] = pts
+    lt = getattr(fp, "LINK_TYPES", None)
+    if not (isinstance(lt, dict) and lt and all(isinstance(k, str) and isinstance(v, str) for k, v in lt.items())):
+        raise LookupError("fortran_project.LINK_TYPES is not a dict of strings")
+    out["linkTypes"] = list(lt.items())
+    # ---- load_external_modules: which ways of failing to fetch a description it survives, and whether the
+    #      projects listed after an unusable one are still loaded - by running it
+    if not callable(getattr(xp, "load_external_modules", None)):
+        raise LookupError("load_external_modules not found")
+    out["fetchErrors"], out["handlerExits"] = _probe_fetch_handling(xp, fp)
+    out["caughtSource"], out["loopShape"] = _describe_source(repo, xp)
+    # ---- graphs.BaseNode: which External* classes become strings, when the node's URL is used as it is
+    out["nodeStringified"], out["nodeVerbatim"], out["nodeVerbatimSource"] = _probe_node_url(repo, sf, gr)
     for (n, caught), (n2, ex) in zip(out["fetchErrors"], out["handlerExits"]):
         if n != n2 or caught != (ex != "uncaught"):
             raise LookupError(f"load_external_modules: {n} caught={caught} but handler exit {ex!r}")
     return out
 
 
-EXITS = {ast.Return: "return", ast.Break: "break", ast.Continue: "continue", ast.Raise: "raise"}
+# --------------------------------------------------------------------------- probing load_external_modules
+
+_GOOD = ('[{"name": "%s", "external_url": "./module/%s.html", "obj": "module", "pub_procs": {}, "pub_absints": {}, '
+         '"pub_types": {}, "pub_vars": {}, "functions": [], "subroutines": [], "interfaces": [], "absinterfaces": [], '
+         '"types": [], "variables": []}]')
+EXT_LISTS = ["extModules", "extProcedures", "extInterfaces", "extTypes", "extVariables"]
 
 
-def _calls(node, name: str) -> bool:
-    return any(isinstance(c, ast.Call) and ((isinstance(c.func, ast.Name) and c.func.id == name) or
-                                             (isinstance(c.func, ast.Attribute) and c.func.attr == name))
-               for c in ast.walk(node))
+def _exception(name: str):
+    return {
+        "FileNotFoundError": lambda: FileNotFoundError(2, "No such file or directory"),
+        "IsADirectoryError": lambda: IsADirectoryError(21, "Is a directory"),
+        "PermissionError": lambda: PermissionError(13, "Permission denied"),
+        "URLError": lambda: urllib.error.URLError("unreachable"),
+        "HTTPError": lambda: urllib.error.HTTPError("http://probe.invalid/modules.json", 404, "Not Found", None, None),
+        "TimeoutError": lambda: TimeoutError("timed out"),
+        "JSONDecodeError": lambda: json.JSONDecodeError("Expecting value", "", 0),
+        "UnicodeDecodeError": lambda: UnicodeDecodeError("utf-8", b"\xff", 0, 1, "invalid start byte"),
+    }[name]()
 
 
-def _loop_shape(fn: ast.FunctionDef, ns: dict):
-    """The statement structure of `load_external_modules` the model `loadAll` relies on.
+class _Resp:
+    def __init__(self, data):
+        self.data = data
 
-    for <url> in <...external...>:        # one iteration per external project
-        ...
-        try: <fetch>                        # a statement of the loop body itself
-        except <classes>: <handler>
-        ...
-        for <item> in <NAME>: dict2obj(...) # a later statement of the same body
-    (nothing that converts descriptions after the loop)
+    def read(self):
+        return self.data
 
-    -> per way of failing (FETCH_ERRORS) how the first handler that catches it ends."""
-    loops = [n for n in fn.body if isinstance(n, (ast.For, ast.While))]
-    outer = [n for n in loops if isinstance(n, ast.For) and "external" in ast.unparse(n.iter)]
-    if len(outer) != 1:
-        raise LookupError("load_external_modules: expected exactly one top-level loop over project.external")
-    outer = outer[0]
-    if outer.orelse:
-        raise LookupError("load_external_modules: the loop over the external projects has an else branch")
-    after = fn.body[fn.body.index(outer) + 1:]
-    if any(_calls(n, "dict2obj") for n in after) or any(_calls(n, "dict2obj") for n in fn.body[:fn.body.index(outer)]):
-        raise LookupError("load_external_modules: descriptions are converted outside the loop over the external projects")
-    tries = [i for i, n in enumerate(outer.body) if isinstance(n, ast.Try)]
-    nested = [t for t in ast.walk(outer) if isinstance(t, ast.Try)]
-    if len(tries) != 1 or len(nested) != 1:
-        raise LookupError("load_external_modules: expected exactly one try statement, directly in the loop body")
-    ti = tries[0]
-    tr = outer.body[ti]
-    if tr.finalbody or tr.orelse:
-        raise LookupError("load_external_modules: try statement with else / finally is not modelled")
-    conv = [(i, n) for i, n in enumerate(outer.body) if i > ti and isinstance(n, ast.For) and _calls(n, "dict2obj")]
-    if len(conv) != 1 or not isinstance(conv[0][1].iter, ast.Name):
-        raise LookupError("load_external_modules: expected one conversion loop `for x in <name>: dict2obj(...)` after the try")
-    if any(_calls(n, "dict2obj") for i, n in enumerate(outer.body) if i != conv[0][0]):
-        raise LookupError("load_external_modules: dict2obj is called outside the conversion loop")
-    var = conv[0][1].iter.id
-    # between the try and the conversion nothing may leave the iteration
-    for n in outer.body[ti + 1:]:
-        for x in ast.walk(n):
-            if isinstance(x, tuple(EXITS)):
-                raise LookupError("load_external_modules: the loop body leaves the iteration after the try statement")
-    exits = []
-    for h in tr.handlers:
-        classes = [BaseException]
-        if h.type is not None:
-            val = eval(ast.unparse(h.type), ns)  # noqa: S307 - resolved above already
-            classes = list(val) if isinstance(val, tuple) else [val]
-        inner = [x for n in h.body for x in ast.walk(n) if isinstance(x, tuple(EXITS))]
-        last = h.body[-1]
-        if inner and not (len(inner) == 1 and inner[0] is last):
-            raise LookupError("load_external_modules: the except handler leaves conditionally / more than once")
-        if inner:
-            how = EXITS[type(last)]
-        else:
-            resets = False
-            for n in h.body:
-                if isinstance(n, ast.Assign) and len(n.targets) == 1 and isinstance(n.targets[0], ast.Name) \
-                        and n.targets[0].id == var:
-                    try:
-                        v = ast.literal_eval(n.value)
-                        resets = isinstance(v, (list, dict, tuple, str, set)) and len(v) == 0
-                    except Exception:
-                        resets = False
-                elif any(isinstance(x, ast.Name) and x.id == var and isinstance(x.ctx, ast.Store) for x in ast.walk(n)):
-                    resets = False
-            if not resets:
-                raise LookupError(f"load_external_modules: the except handler falls through to the conversion without "
-                                  f"resetting `{var}` to an empty container")
-            how = "fallthrough"
-        exits.append((classes, how))
+
+def _with_urlopen(xp, fake, thunk):
+    """run `thunk` with `urllib.request.urlopen` - under whatever name the module holds it - replaced by `fake`"""
+    import urllib.request
+    orig = urllib.request.urlopen
+    aliases = [k for k, v in vars(xp).items() if v is orig]
+    urllib.request.urlopen = fake
+    for k in aliases:
+        setattr(xp, k, fake)
+    try:
+        return thunk()
+    finally:
+        urllib.request.urlopen = orig
+        for k in aliases:
+            setattr(xp, k, orig)
+
+
+def _probe_project(fp, tmp: Path):
+    """a real, parsed (not correlated) Project with one module: B as `load_external_modules` meets it"""
+    import io
+    from contextlib import redirect_stdout, redirect_stderr
+    from ford.settings import ProjectSettings
+    src = tmp / "src"
+    src.mkdir(parents=True, exist_ok=True)
+    (src / "probe_b.f90").write_text("module probe_b\n  use probe_m\n  use probe_m2\n  implicit none\nend module probe_b\n")
+    cwd = os.getcwd()
+    try:
+        with redirect_stdout(io.StringIO()), redirect_stderr(io.StringIO()):
+            settings = ProjectSettings(src_dir=[src], preprocess=False)
+            settings.directory = tmp
+            return fp.Project(settings)
+    finally:
+        os.chdir(cwd)
+
+
+def _run_load(xp, base_project, external: dict, directory: Path, fake):
+    """-> ('escaped', class name) | ('loaded', names of the external modules)"""
+    import copy
+    import io
+    from contextlib import redirect_stdout, redirect_stderr
+    proj = copy.copy(base_project)
+    proj.external = dict(external)
+    proj.settings = copy.copy(proj.settings)
+    proj.settings.directory = directory
+    for ln in EXT_LISTS:
+        setattr(proj, ln, [])
+    try:
+        with redirect_stdout(io.StringIO()), redirect_stderr(io.StringIO()):
+            _with_urlopen(xp, fake, lambda: xp.load_external_modules(proj))
+    except Exception as e:  # whatever ends the run
+        return ("escaped", type(e).__name__)
+    return ("loaded", [str(m.name) for m in proj.extModules])
+
+
+def _classify(first, second, what: str) -> str:
+    """first: [failing, good] ; second: [good, failing, good2]"""
+    if first[0] == "escaped" or second[0] == "escaped":
+        if first[0] != second[0]:
+            raise LookupError(f"load_external_modules: {what} ends the run depending on its place in `external` - not modelled")
+        return "uncaught"
+    if first[1] == ["probe_m"] and second[1] == ["probe_m", "probe_m2"]:
+        return "fallthrough"      # (or `continue`: the same thing to every observer) - the later projects are loaded
+    if first[1] == [] and second[1] == ["probe_m"]:
+        return "return"           # (or `break`) - the projects listed after the unusable one are not loaded
+    raise LookupError(f"load_external_modules: after {what} the projects loaded are {first[1]} / {second[1]} - not modelled")
+
+
+def _probe_fetch_handling(xp, fp):
+    """Run the real `load_external_modules` on a real project that lists an unusable external project before a
+    usable one, and between two usable ones; per way of failing: does the failure end the run (`uncaught`), are the
+    later projects still loaded (`fallthrough`) or not (`return`)?  Remote projects: the fetch is replaced and
+    raises the exception; local projects: directories on disk without / with a broken modules.json - both must agree."""
+    import tempfile
     per = []
-    for n, c in FETCH_ERRORS.items():
-        how = next((hw for classes, hw in exits if any(issubclass(c, k) for k in classes)), "uncaught")
-        per.append((n, how))
-    shape = {"loop_over": ast.unparse(outer.iter), "converted_variable": var,
-             "handlers": [([k.__name__ for k in cl], hw) for cl, hw in exits]}
-    return per, shape
+    with tempfile.TemporaryDirectory(prefix="c16-probe-") as td:
+        td = Path(td)
+        base = _probe_project(fp, td / "B")
+        served = {"http://probe.invalid/g1/modules.json": (_GOOD % ("probe_m", "probe_m")).encode(),
+                  "http://probe.invalid/g2/modules.json": (_GOOD % ("probe_m2", "probe_m2")).encode()}
+        for name in FETCH_ERRORS:
+            def fake(url, *a, _n=name, **k):
+                url = str(getattr(url, "full_url", url))
+                if url in served:
+                    return _Resp(served[url])
+                raise _exception(_n)
+            first = _run_load(xp, base, {"bad": "http://probe.invalid/bad", "g1": "http://probe.invalid/g1"}, td, fake)
+            second = _run_load(xp, base, {"g1": "http://probe.invalid/g1/", "bad": "http://probe.invalid/bad/",
+                                          "g2": "http://probe.invalid/g2"}, td, fake)
+            per.append((name, _classify(first, second, f"a fetch that raises {name}")))
+        # the same for local directories, for the ways of failing that can be staged on disk
+        for d_, n_ in (("g1", "probe_m"), ("g2", "probe_m2")):
+            (td / d_).mkdir()
+            (td / d_ / "modules.json").write_text(_GOOD % (n_, n_))
+        stage = {"FileNotFoundError": lambda p: None,
+                 "IsADirectoryError": lambda p: (p / "modules.json").mkdir(),
+                 "JSONDecodeError": lambda p: (p / "modules.json").write_text('[{"name": '),
+                 "UnicodeDecodeError": lambda p: (p / "modules.json").write_bytes(b'["\xff\xfe"]')}
+
+        def no_network(url, *a, **k):
+            raise urllib.error.URLError("no network")
+        for name, how in stage.items():
+            bad = td / ("bad-" + name)
+            bad.mkdir()
+            how(bad)
+            first = _run_load(xp, base, {"bad": str(bad), "g1": str(td / "g1")}, td, no_network)
+            second = _run_load(xp, base, {"g1": "g1", "bad": bad.name, "g2": "./g2/"}, td, no_network)
+            local = _classify(first, second, f"a local description that fails with {name}")
+            if local != dict(per)[name]:
+                raise LookupError(f"load_external_modules: {name} is handled differently for a local path ({local}) and "
+                                  f"for a remote URL ({dict(per)[name]}) - not modelled")
+    return [(n, how != "uncaught") for n, how in per], per
+
+
+def _describe_source(repo: Path, xp):
+    """for the evidence only (nothing is decided from it): the exception classes the `except` clauses of
+    load_external_modules name, and the loop it runs"""
+    try:
+        tree = ast.parse((Path(repo) / "ford" / "external_project.py").read_text())
+        fn = next(n for n in tree.body if isinstance(n, ast.FunctionDef) and n.name == "load_external_modules")
+        names = []
+        for t in ast.walk(fn):
+            if isinstance(t, ast.Try):
+                for h in t.handlers:
+                    if h.type is None:
+                        names.append("BaseException")
+                        continue
+                    val = eval(ast.unparse(h.type), dict(vars(xp)))  # noqa: S307 - names of exception classes only
+                    names += [c.__name__ for c in (val if isinstance(val, tuple) else (val,))]
+        loops = [ast.unparse(n.iter) for n in fn.body if isinstance(n, ast.For)]
+        return names or ["?"], {"loops": loops}
+    except Exception as e:  # noqa
+        return ["?"], {"loops": [], "note": f"source not described: {type(e).__name__}"}
+
+
+# --------------------------------------------------------------------------- probing graphs.BaseNode
+
+NODE_PROBE_URLS = ["/abs/A/doc/module/m.html", "http://h.invalid/a/module/m.html", "https://h.invalid/m.html",
+                   "module/m.html", "ftp://h.invalid/m.html", "file:///abs/m.html", "//h.invalid/m.html"]
+
+
+class _OwnStub:
+    """an entity of the project itself, as far as BaseNode looks at it"""
+
+    def __init__(self, url):
+        self.name, self.ident, self.visible, self._url = "probe_n", "probe_n", True, url
+
+    def get_dir(self):
+        return "module"
+
+    def get_url(self):
+        return self._url
+
+
+def _eval_cond(c, fromstr: bool, has_ext: bool, url: str) -> bool:
+    """NodeCond terms, evaluated as lean/FordModel/ExternalGraph.lean does (`evalCond`)"""
+    from urllib.parse import urlsplit
+    if c[0] == "atom":
+        return {"fromstr": fromstr, "hasExternalUrl": has_ext, "isStr": fromstr,
+                "urlHasScheme": urlsplit(url).scheme != "",
+                "urlStartsWith": url.startswith(c[2]) if len(c) > 2 else False}[c[1]]
+    if c[0] == "const":
+        return c[1]
+    if c[0] == "not":
+        return not _eval_cond(c[1], fromstr, has_ext, url)
+    a, b = _eval_cond(c[1], fromstr, has_ext, url), _eval_cond(c[2], fromstr, has_ext, url)
+    return (a and b) if c[0] == "and" else (a or b)
+
+
+def _node_candidates():
+    F, X, S = ("atom", "fromstr"), ("atom", "hasExternalUrl"), ("atom", "urlHasScheme")
+    http = ("or", ("atom", "urlStartsWith", "http://"), ("atom", "urlStartsWith", "https://"))
+    return [("or", F, X), F, X, S, ("or", F, S), ("or", X, S), ("or", F, ("or", X, S)), ("atom", "urlStartsWith", "http"), http,
+            ("or", F, http), ("or", X, http), ("or", F, ("or", X, http)), ("and", ("or", F, X), S), ("const", True), ("const", False)]
+
+
+def _probe_node_url(repo: Path, sf, gr):
+    """`BaseNode(obj, graph_data)` on stub objects: (1) the External* classes whose objects are replaced by
+    `str(obj)` - their node is identified by the bare name, like a node made from a string -; (2) when the node's
+    URL is used as it is and when `graph_data.parent_dir` is put in front: observed for objects of a stringified
+    External class, of another External class, of the project itself and for plain strings, each with local paths,
+    remote URLs and other URL shapes; the test is the first term of a fixed list of NodeCond terms that agrees with
+    every observation (none: the source of the `if` is translated as before, or the translator gives up)."""
+    try:
+        gd = gr.GraphData("PFX/", False, False)
+    except Exception as e:
+        raise LookupError(f"graphs.GraphData cannot be made ({type(e).__name__}: {e})")
+    classes = [(n, c) for n, c in vars(sf).items() if isinstance(c, type) and n.startswith("External")
+               and c.__module__ == sf.__name__]
+    stringified, plain = [], []
+    for n, c in classes:
+        try:
+            node = gr.BaseNode(_make(c, "probe_n", "/abs/u.html"), gd)
+        except Exception:
+            continue        # a class BaseNode cannot be made of at all is not one the graphs meet
+        (stringified if getattr(node, "ident", None) == "probe_n" else plain).append((n, c))
+    if not stringified:
+        raise LookupError("graphs.BaseNode: no External* class is turned into a string")
+    obs = []
+    ext_s = next((c for n, c in stringified if n == "ExternalModule"), stringified[0][1])
+    ext_p = next((c for n, c in plain if n == "ExternalVariable"), plain[0][1] if plain else None)
+    for u in NODE_PROBE_URLS:
+        subjects = [("stringified", True, False, _make(ext_s, "probe_n", u)), ("own", False, False, _OwnStub(u)),
+                    ("string", True, False, f"<a href='{u}'>probe_n</a>")]
+        if ext_p is not None:
+            subjects.append(("external", False, True, _make(ext_p, "probe_n", u)))
+        for kind, fromstr, has_ext, obj in subjects:
+            try:
+                got = gr.BaseNode(obj, gd).attribs.get("URL")
+            except Exception as e:
+                raise LookupError(f"graphs.BaseNode raises {type(e).__name__} on a {kind} object with URL {u!r}")
+            if got == u:
+                obs.append((kind, fromstr, has_ext, u, True))
+            elif got == "PFX/" + u:
+                obs.append((kind, fromstr, has_ext, u, False))
+            else:
+                raise LookupError(f"graphs.BaseNode: the node of a {kind} object with URL {u!r} gets URL {got!r} - not modelled")
+    for cand in _node_candidates():
+        if all(_eval_cond(cand, f, x, u) == verbatim for _, f, x, u, verbatim in obs):
+            return [n for n, _ in stringified], cand, f"probed on {len(obs)} stub objects"
+    # no term of the list explains the behaviour: translate the source of the test, as before round 5
+    tree = ast.parse((Path(repo) / "ford" / "graphs.py").read_text())
+    _, cond, src = _node_url(tree)
+    if not all(_eval_cond(cond, f, x, u) == verbatim for _, f, x, u, verbatim in obs):
+        raise LookupError(f"graphs.BaseNode.__init__: the test `{src}` as translated does not explain the observed node URLs")
+    return [n for n, _ in stringified], cond, src
 
 
 def _is_self_attr(n, attr: str) -> bool:
@@ -398,10 +561,10 @@ def render(t: dict) -> str:
         "def fetchErrors : List (Str × Bool) := [",
         ",\n".join(f"  ({_lean_str(n)}, {'true' if c else 'false'}) /- {n} -/" for n, c in t["fetchErrors"]),
         "]",
-        "/-- per way of failing, how the `except` handler of `load_external_modules` that catches it ends:",
-        "    `fallthrough` (description reset to an empty container, the rest of the loop body runs), `continue`,",
-        "    `break`, `return`, `raise`; `uncaught` when no handler names it.  The `try` is a statement of the loop",
-        f"    `for ... in {t['loopShape']['loop_over']}` and `{t['loopShape']['converted_variable']}` is converted later in the same body. -/",
+        "/-- per way of failing, what `load_external_modules` does with the projects listed after the unusable one:",
+        "    `fallthrough` (they are loaded: the handler falls through with an empty description or `continue`s),",
+        "    `return` (they are not: `return` / `break`), `uncaught` when the failure ends the run;",
+        "    one iteration per entry of `project.external`; observed by running the function (translate/c16.py). -/",
         "def handlerExits : List (Str × Str) := [",
         ",\n".join(f"  ({_lean_str(n)}, {_lean_str(h)}) /- {n}: {h} -/" for n, h in t["handlerExits"]),
         "]",
@@ -410,7 +573,7 @@ def render(t: dict) -> str:
         ",\n".join(f"  {_lean_str(c)} /- {c} -/" for c in t["nodeStringified"]),
         "]",
         "/-- `graphs.BaseNode.__init__`: the node's URL is used as it is when this holds, otherwise it is prefixed with",
-        f"    `graph_data.parent_dir`; in the source: `{t['nodeVerbatimSource']}` -/",
+        f"    `graph_data.parent_dir` ({t['nodeVerbatimSource']}) -/",
         f"def nodeVerbatim : NodeCond := {_lean_cond(t['nodeVerbatim'])}",
         "end Ford.Ext.Gen",
         "",
